@@ -105,6 +105,11 @@ pub fn run_decoder_calls(e: &Enc, bom: BomMode, sink: Sink, repl: bool, calls: &
 /// Documented loop on one chunk sequence with ample output (never OutputFull unless the
 /// worst-case query lies); every chunk is pushed until InputEmpty.
 pub fn decode_chunks_ample(e: &Enc, bom: BomMode, sink: Sink, repl: bool, chunks: &[&[u8]], close: bool) -> Result<DecRun, String> {
+    decode_chunks_cap(e, bom, sink, repl, chunks, close, None)
+}
+
+/// Documented loop with a fixed capacity for every call (None = ample).
+pub fn decode_chunks_cap(e: &Enc, bom: BomMode, sink: Sink, repl: bool, chunks: &[&[u8]], close: bool, fixed_cap: Option<usize>) -> Result<DecRun, String> {
     let mut dec = new_decoder(e, bom);
     let mut run = DecRun { toks: vec![], obs: vec![], finished: false, used: e.name, any_errors: false, total_read: 0, problems: vec![], panic: None };
     let n = chunks.len();
@@ -117,8 +122,8 @@ pub fn decode_chunks_ample(e: &Enc, bom: BomMode, sink: Sink, repl: bool, chunks
             if guard > 4 * ch.len() + 64 {
                 return Err("driver: no termination".into());
             }
-            let cap = rest.len() * 4 + 64;
-            let d = Dst { cap, fill: 0, align: 0, prior: None };
+            let cap = fixed_cap.unwrap_or(rest.len() * 4 + 64);
+            let d = Dst { cap, fill: 0xA5 & if sink == Sink::Str { 0x7F } else { 0xFF }, align: 0, prior: None };
             let o = call_decoder(&mut dec, sink, repl, rest, last, &d)?;
             push_obs(&mut run, &o, sink);
             let r = o.read.min(rest.len());
@@ -213,6 +218,10 @@ fn push_eobs(run: &mut EncRun, o: &EncObs) {
 /// Documented loop for an encoder over whole-text chunks (given as UTF-8 strs or UTF-16 unit
 /// vectors) with ample output.
 pub fn encode_chunks_ample(e: &Enc, source: Source, repl: bool, chunks8: &[&str], chunks16: &[&[u16]], close: bool) -> Result<EncRun, String> {
+    encode_chunks_cap(e, source, repl, chunks8, chunks16, close, None)
+}
+
+pub fn encode_chunks_cap(e: &Enc, source: Source, repl: bool, chunks8: &[&str], chunks16: &[&[u16]], close: bool, fixed_cap: Option<usize>) -> Result<EncRun, String> {
     let mut enc = e.imp.new_encoder();
     let mut run = EncRun { toks: vec![], obs: vec![], finished: false, any_unmappable: false, problems: vec![] };
     let n = if source == Source::Utf8 { chunks8.len() } else { chunks16.len() };
@@ -227,8 +236,8 @@ pub fn encode_chunks_ample(e: &Enc, source: Source, repl: bool, chunks8: &[&str]
             if guard > 4 * len + 64 {
                 return Err("driver: no termination".into());
             }
-            let cap = len * 12 + 64;
-            let d = Dst { cap, fill: 0, align: 0, prior: None };
+            let cap = fixed_cap.unwrap_or(len * 12 + 64);
+            let d = Dst { cap, fill: 0xA5, align: 0, prior: None };
             let o = call_encoder(&mut enc, source, ESink::Slice, repl, rest8, rest16, last, &d)?;
             push_eobs(&mut run, &o);
             let res = o.res;
